@@ -633,3 +633,6 @@ REGISTRY['C01'] = dict(modules=['LibconfigModel.Properties.C01'], run=props_c01.
 import props_c1011
 REGISTRY['C10'] = dict(modules=['LibconfigModel.Properties.C10'], run=props_c1011.run_C10, assumptions=COMMON_ASSUMPTIONS)
 REGISTRY['C11'] = dict(modules=['LibconfigModel.Properties.C11'], run=props_c1011.run_C11, assumptions=COMMON_ASSUMPTIONS)
+
+import props_c17
+REGISTRY['C17'] = dict(modules=['LibconfigModel.Properties.C17'], run=props_c17.run_C17, assumptions=COMMON_ASSUMPTIONS)
